@@ -430,13 +430,15 @@ def propagateUpvalue : (cs : List Compiler) → (d : Nat) → (index : Nat) →
       | none => none
       | some (i, c') => some (i, c' :: rest')
 
-/-- Find the nearest enclosing compiler (innermost-first position ≥ 1) that has the local. -/
-def findEnclosing : List Compiler → String → Nat → Option (Nat × Nat)
-  | [], _, _ => none
+/-- Find the nearest enclosing compiler (innermost-first position ≥ 1) that has the local.  A compiler in which the name is that of a
+local still inside its own initialiser ends the search with that error (F46). -/
+def findEnclosing : List Compiler → String → Nat → Except ResolveErr (Nat × Nat)
+  | [], _, _ => .error .notFound
   | c :: rest, name, pos =>
     match resolveLocalIn c name with
-    | .ok i => some (pos, i)
-    | .error _ => findEnclosing rest name (pos + 1)
+    | .ok i => .ok (pos, i)
+    | .error .readInInit => .error .readInInit
+    | .error .notFound => findEnclosing rest name (pos + 1)
 
 /-- `resolve_upvalue` -/
 def resolveUpvalue (name : String) : P (Option Nat) := do
@@ -446,8 +448,11 @@ def resolveUpvalue (name : String) : P (Option Nat) := do
   | [_] => return none
   | _ :: outer =>
     match findEnclosing outer name 1 with
-    | none => return none
-    | some (d, localIdx) =>
+    | .error .notFound => return none
+    | .error .readInInit =>
+      error "Cannot read local variable in its own initialiser."
+      return none
+    | .ok (d, localIdx) =>
       match propagateUpvalue s.compilers d localIdx with
       | some (idx, cs) =>
         set { s with compilers := cs }
